@@ -138,23 +138,46 @@ Theorem restart_equiv_lines_aligned : forall (F D : Type) (step : F -> F) (diag 
 Proof. exact ck_restart_equiv_aligned. Qed.
 Print Assumptions restart_equiv_lines_aligned.
 
-(** the rows of an uninterrupted run that ends on a save step (T = q * saveStep): at every save step the
-    row of that time followed by the rows of the saveStep-1 times before it - every time 0..T exactly once,
-    each with the diagnostics of the field of its time *)
+(** the rows of ANY uninterrupted run, ending T = q * saveStep + r steps after the start (r < saveStep):
+    at every save step the row of that time followed by the rows of the saveStep-1 times before it, and
+    after the loop the rows of the r times since the last save - every time 0..T exactly once, each with
+    the diagnostics of the field of its time (since the repair f107601 of the final block) *)
+Theorem run_rows : forall (F D : Type) (step : F -> F) (diag : F -> D) S, 0 < S ->
+  forall tN orc f0,
+  ck_lines F D (ck_run F D step diag S tN orc (ck_fresh F D diag S f0)) =
+  ck_rows_spec_any F D step diag S f0 (ck_count tN orc).
+Proof. exact ck_run_rows_any. Qed.
+Print Assumptions run_rows.
+
+Theorem rows_each_time_once : forall (F D : Type) (step : F -> F) (diag : F -> D) S, 0 < S ->
+  forall f0 T, Permutation (ck_rows_spec_any F D step diag S f0 T)
+                           (map (ck_L F D step diag f0) (seq 0 (T + 1))).
+Proof. exact ck_rows_spec_any_perm. Qed.
+Print Assumptions rows_each_time_once.
+
+(** special case T = q * saveStep *)
 Theorem run_rows_aligned : forall (F D : Type) (step : F -> F) (diag : F -> D) S, 0 < S ->
   forall tN orc f0 q, ck_count tN orc = q * S ->
   ck_lines F D (ck_run F D step diag S tN orc (ck_fresh F D diag S f0)) = ck_rows_spec F D step diag S f0 q.
 Proof. exact ck_run_rows_aligned. Qed.
 Print Assumptions run_rows_aligned.
 
-Theorem rows_each_time_once : forall (F D : Type) (step : F -> F) (diag : F -> D) S, 0 < S ->
-  forall f0 q, Permutation (ck_rows_spec F D step diag S f0 q)
-                           (map (ck_L F D step diag f0) (seq 0 (q * S + 1))).
-Proof. exact ck_rows_spec_perm. Qed.
-Print Assumptions rows_each_time_once.
+(** a run stopped at a multiple of saveStep and restarted, ending anywhere: every time 0..T exactly once *)
+Theorem restart_aligned_rows_each_time_once : forall (F D : Type) (step : F -> F) (diag : F -> D) S, 0 < S ->
+  forall tN1 orc1 tN2 orc2 f0,
+  let N := ck_count tN1 orc1 in
+  let st1 := ck_run F D step diag S tN1 orc1 (ck_fresh F D diag S f0) in
+  N mod S = 0 ->
+  forall st2r, ck_restart F D diag S (ck_files F D st1) = Some st2r ->
+  let st2 := ck_run F D step diag S tN2 orc2 st2r in
+  Permutation (ck_lines F D st1 ++ ck_lines F D st2)
+              (map (ck_L F D step diag f0) (seq 0 (N + ck_count (tN2 - N) orc2 + 1))).
+Proof. exact ck_restart_aligned_rows_once. Qed.
+Print Assumptions restart_aligned_rows_each_time_once.
 
-(** REFUTED for stop times that are not multiples of saveStep (saveStep 3, stop after 1 step):
-    continuing to step 6 never prints the row of time 3; continuing to step 2 prints a zero row *)
+(** REFUTED for stop times that are not multiples of saveStep (saveStep 3, stop after 1 step, continue to
+    6): the row of the stop time is printed twice, the row of time 3 never; (saveStep 4, stop after 2,
+    continue to 3): a zero row *)
 Theorem restart_equiv_lines_refuted :
   ~ (forall S N T, 0 < S -> N <= T -> ck_lines_split_nat S N T = ck_lines_unsplit_nat S T).
 Proof. exact ck_restart_lines_not_general. Qed.
@@ -162,22 +185,15 @@ Print Assumptions restart_equiv_lines_refuted.
 
 Theorem restart_lines_missing_row_refuted :
   ck_lines_unsplit_nat 3 6 = [Some 0; Some 3; Some 1; Some 2; Some 6; Some 4; Some 5] /\
-  ck_lines_split_nat 3 1 6 = [Some 0; Some 0; Some 1; Some 2; Some 6; Some 4; Some 5].
+  ck_lines_split_nat 3 1 6 = [Some 0; Some 1; Some 1; Some 2; Some 6; Some 4; Some 5].
 Proof. exact ck_restart_lines_refuted. Qed.
 Print Assumptions restart_lines_missing_row_refuted.
 
 Theorem restart_lines_zero_row_refuted :
-  ck_lines_unsplit_nat 3 2 = [Some 0; Some 0; Some 1] /\
-  ck_lines_split_nat 3 1 2 = [Some 0; Some 0; None; Some 1].
+  ck_lines_unsplit_nat 4 3 = [Some 0; Some 1; Some 2; Some 3] /\
+  ck_lines_split_nat 4 2 3 = [Some 0; Some 1; Some 2; None; Some 2; Some 3].
 Proof. exact ck_restart_zero_rows_refuted. Qed.
 Print Assumptions restart_lines_zero_row_refuted.
-
-(** REFUTED even without a restart: a run that ends between two save steps repeats the row of the last
-    save step and omits the row of its final time (saveStep 3, 7 steps: row 6 twice, no row 7) *)
-Theorem final_window_lines_refuted :
-  ck_lines_unsplit_nat 3 7 = [Some 0; Some 3; Some 1; Some 2; Some 6; Some 4; Some 5; Some 6].
-Proof. exact ck_final_window_refuted. Qed.
-Print Assumptions final_window_lines_refuted.
 
 (** ** non-vacuity *)
 (** a 3 x 4 array written by a 2 x 1 grid and read by rank (0,2) of a 1 x 3 grid (column starts 0,1,2,4): columns 2..3 *)
@@ -190,10 +206,15 @@ Proof. vm_compute. split; reflexivity. Qed.
 (** saveStep 2, tEnd = 5 steps, wall clock stops after the 3rd iteration, restart to 5 *)
 Example driver_example :
   ck_run_nat 2 5 None [true; true; false] =
-    (3, 3, 3, [(0, 0); (2, 2); (3, 3)], [Some (0, 0); Some (2, 2); Some (1, 1); Some (2, 2)]) /\
+    (3, 3, 3, [(0, 0); (2, 2); (3, 3)], [Some (0, 0); Some (2, 2); Some (1, 1); Some (3, 3)]) /\
   ck_run_nat 2 5 (Some 3) [] =
-    (5, 5, 2, [(4, 4); (5, 5)], [Some (3, 3); Some (4, 4)]).
+    (5, 5, 2, [(4, 4); (5, 5)], [Some (3, 3); Some (5, 5)]).
 Proof. vm_compute. split; reflexivity. Qed.
+
+(** saveStep 3, 7 steps: the final block prints the row of time 7 (before f107601: row 6 a second time) *)
+Example final_window_example :
+  ck_lines_unsplit_nat 3 7 = [Some 0; Some 3; Some 1; Some 2; Some 6; Some 4; Some 5; Some 7].
+Proof. vm_compute. reflexivity. Qed.
 
 Example names_example : ck_name 40 = [103;114;105;100;95; 48;48;48;48;52;48; 46;104;53]%N.
 Proof. vm_compute. reflexivity. Qed.
